@@ -215,6 +215,7 @@ const AS_LIMIT: u64 = 8 << 30;
 
 /// `vh-load extdata --cases cases.jsonl --out trace.ndjson`
 pub fn main_extdata() {
+    let _scratch = crate::child::scratch_tmpdir();
     let out = arg_or("--out", "extdata.ndjson");
     let threads = arg_usize("--threads", 8);
     rayon::ThreadPoolBuilder::new().num_threads(threads).build_global().unwrap();
